@@ -14,6 +14,9 @@ pub struct StepCase {
     pub ccr: u8,
     pub patches: Vec<(u32, Vec<u8>)>,
     pub bus: BusCfg,
+    /// Some(v): the action is "request interrupt v, then poll" (the acceptance of an interrupt at an
+    /// instruction boundary) instead of executing the instruction at pc
+    pub irq: Option<u8>,
 }
 
 impl StepCase {
@@ -25,6 +28,7 @@ impl StepCase {
             "ccr": self.ccr,
             "patches": self.patches.iter().map(|(a, b)| json!([a, hex(b)])).collect::<Vec<_>>(),
             "bus": [self.bus.abwcr, self.bus.astcr, self.bus.wcrh, self.bus.wcrl, self.bus.drcra],
+            "irq": self.irq,
         })
     }
     pub fn from_json(v: &Value) -> Option<StepCase> {
@@ -47,12 +51,17 @@ impl StepCase {
                 .filter_map(|p| Some((p.get(0)?.as_u64()? as u32, unhex(p.get(1)?.as_str()?)?)))
                 .collect(),
             bus: BusCfg { abwcr: g(0), astcr: g(1), wcrh: g(2), wcrl: g(3), drcra: g(4) },
+            irq: v.get("irq").and_then(|x| x.as_u64()).map(|x| x as u8),
         })
     }
     /// human-readable one-line rendering for evidence samples
     pub fn brief(&self) -> String {
         format!(
-            "code={} @{:06x} er=[{}] ccr={:02x}{}",
+            "{}code={} @{:06x} er=[{}] ccr={:02x}{}",
+            match self.irq {
+                Some(v) => format!("irq={} ", v),
+                None => String::new(),
+            },
             hex(&self.code),
             self.pc,
             self.er.iter().map(|r| format!("{:08x}", r)).collect::<Vec<_>>().join(","),
@@ -116,8 +125,8 @@ pub struct Judged {
     pub msgs: Vec<String>,
 }
 
-struct PreImage {
-    map: HashMap<u32, u8>,
+pub struct PreImage {
+    pub map: HashMap<u32, u8>,
 }
 impl rx::Base for PreImage {
     fn get(&self, addr: u32) -> u8 {
@@ -146,7 +155,7 @@ fn pre_image(case: &StepCase) -> PreImage {
     PreImage { map }
 }
 
-fn merge_windows(mut w: Vec<(u32, u32)>) -> Vec<(u32, u32)> {
+pub fn merge_windows(mut w: Vec<(u32, u32)>) -> Vec<(u32, u32)> {
     w.sort();
     let mut out: Vec<(u32, u32)> = Vec::with_capacity(w.len());
     for (lo, hi) in w {
@@ -163,7 +172,7 @@ fn merge_windows(mut w: Vec<(u32, u32)>) -> Vec<(u32, u32)> {
     out
 }
 
-fn win(a: u32) -> (u32, u32) {
+pub fn win(a: u32) -> (u32, u32) {
     let a = a & rx::MASK24;
     (a.saturating_sub(64), a.saturating_add(64).min(rx::MASK24))
 }
@@ -181,7 +190,10 @@ fn run_ref(case: &StepCase, pre: &PreImage, quirks: &[Quirk]) -> RefRun {
     s.er = case.er;
     s.ccr = case.ccr;
     s.pc = case.pc;
-    let step = rx::step(&mut s, quirks);
+    let step = match case.irq {
+        Some(v) => rx::interrupt_entry(&mut s, v),
+        None => rx::step(&mut s, quirks),
+    };
     RefRun { step, er: s.er, ccr: s.ccr, pc: s.pc, overlay: s.overlay }
 }
 
@@ -305,7 +317,13 @@ pub fn judge(emu: &mut Emu, case: &StepCase, asp: &Aspects, open_quirks: &[Quirk
     // --- reference
     let pure = run_ref(case, &pre, &[]);
     // --- emulator
-    let result = emu.step();
+    let result = match case.irq {
+        Some(v) => {
+            crate::cpu::verif_hooks::request_interrupt(&mut emu.cpu, v);
+            emu.try_interrupt()
+        }
+        None => emu.step(),
+    };
     let obs = Observed { result, er: emu.cpu.er, ccr: emu.ccr(), pc: emu.pc(), msgs: emu.drain_msgs() };
 
     // --- observed memory diff
